@@ -7,6 +7,7 @@
 package zzverif
 
 import (
+	"encoding/hex"
 	"encoding/json"
 	"fmt"
 	"math"
@@ -52,11 +53,11 @@ type Outcome struct {
 type state struct {
 	allocLimit uint64
 	allocBase  uint64
-	vals    map[string]modelVal
-	occ     map[string]int
-	choices []uint64
-	nchoice int
-	out     Outcome
+	vals       map[string]modelVal
+	occ        map[string]int
+	choices    []uint64
+	nchoice    int
+	out        Outcome
 }
 
 var st *state
@@ -168,6 +169,21 @@ func Bytes(label string, n int) []byte {
 		out[i] = Uint8(fmt.Sprintf("%s[%d]", label, i))
 	}
 	return out
+}
+
+// Pin returns data under gosym (where it must be concrete) and records it with the path; a native replay gets the recorded
+// bytes back instead of data. Used for inputs the harness computes itself but whose layout is not deterministic natively
+// (a stored stream depends on Go's map iteration order).
+func Pin(label string, data []byte) []byte {
+	ensure()
+	k := st.occ[label]
+	st.occ[label] = k + 1
+	if v, ok := st.vals[fmt.Sprintf("%s#%d", label, k)]; ok && v.Type == "pin" {
+		if b, err := hex.DecodeString(v.Str); err == nil {
+			return b
+		}
+	}
+	return data
 }
 
 func Choice(label string, n int) int {
@@ -317,10 +333,10 @@ func LoadImage(name string, dst any) { panic("zzverif.LoadImage is only availabl
 
 // ---- heap queries (gosym only; natively they report "nothing to see", the checks that use them are model-level)
 
-func FootprintBegin(tag string)                       {}
-func FootprintEnd(tag string)                         {}
-func FootprintConflicts(a, b string) int              { return 0 }
+func FootprintBegin(tag string)                        {}
+func FootprintEnd(tag string)                          {}
+func FootprintConflicts(a, b string) int               { return 0 }
 func FootprintWritesInto(tag string, roots ...any) int { return 0 }
-func FootprintSize(tag string) int                    { return 1 }
+func FootprintSize(tag string) int                     { return 1 }
 func FootprintTouches(tag string, roots ...any) int    { return 0 }
 func FootprintWritesGlobals(tag string) int            { return 0 }
